@@ -18,6 +18,7 @@ HELPERS = {
     "nr": 'nr = { "a" }',
     "nb": 'nb = { "b" }',
     "sr": 'sr = _{ "a" ~ "b" }',
+    "sn": 'sn = _{ nr ~ "b" }',
     "ar": 'ar = @{ "a" ~ nr }',
     "cr": 'cr = ${ "a" ~ nr }',
     "xr": 'xr = !{ "a" ~ nr }',
@@ -38,6 +39,7 @@ ATOMS: list[tuple[str, tuple[str, ...], bool, str]] = [
     ("NEWLINE", (), False, "\n"),
     ("nr", ("nr",), False, ""),
     ("sr", ("sr",), False, ""),
+    ("sn", ("sn", "nr"), False, ""),
     ("ar", ("ar", "nr"), False, ""),
     ("cr", ("cr", "nr"), False, ""),
     ("xr", ("xr", "nr"), False, ""),
@@ -67,18 +69,20 @@ CONTEXTS: list[tuple[str, str, bool, tuple[str, ...]]] = [
     ('"a" ~ {x}', "n", False, ()),
     ('{x} | "b"', "x", False, ()),
     ('"ab" | {x}', "x", False, ()),
-    ("({x})?", "y", False, ()),
-    ("({x})*", "y", True, ()),
-    ("({x})+", "x", True, ()),
-    ("({x}){{2}}", "x", False, ()),
-    ("({x}){{1,}}", "x", True, ()),
-    ("({x}){{,2}}", "y", False, ()),
-    ("({x}){{1,2}}", "x", False, ()),
-    ("&({x}) ~ ANY", "n", False, ()),
-    ("!({x}) ~ ANY", "n", False, ()),
+    ("{x}?", "y", False, ()),
+    ("{x}*", "y", True, ()),
+    ("{x}+", "x", True, ()),
+    ("{x}{{2}}", "x", False, ()),
+    ("{x}{{1,}}", "x", True, ()),
+    ("{x}{{,2}}", "y", False, ()),
+    ("{x}{{1,2}}", "x", False, ()),
+    ("&{x} ~ ANY", "n", False, ()),
+    ("!{x} ~ ANY", "n", False, ()),
     ("PUSH({x}) ~ POP", "x", False, ()),
     ("#tt = ({x})", "x", False, ()),
-    ('({x})+ ~ "b"', "n", True, ()),
+    ('{x}+ ~ "b"', "n", True, ()),
+    ("({x})", "x", False, ()),
+    ("({x})?", "y", False, ()),
     ('PUSH("a") ~ {x}', "n", False, ()),
     ('PUSH_LITERAL("b") ~ PUSH("a") ~ {x}', "n", False, ()),
     ('({x} ~ "b") | {x}', "x", False, ()),
@@ -113,7 +117,7 @@ def g1_space(depth: int = 2):
                 for tmpl, nul, consuming, chelp in CONTEXTS[1:]:
                     if consuming and nl:
                         continue
-                    b = tmpl.format(x=body if _is_atomic_text(body) else f"({body})")
+                    b = tmpl.format(x=body if (_is_atomic_text(body) or "({x})" in tmpl) else f"({body})")
                     n2 = nl if nul == "x" else (nul == "y")
                     nxt.append((b, tuple(sorted(set(hs) | set(chelp))), n2, f"{lab} in [{tmpl}]"))
             yield from ((lab, body, hs, extra) for body, hs, _n, lab in nxt)
@@ -126,7 +130,7 @@ def _is_atomic_text(b: str) -> bool:
 
 def helper_closure(hs: tuple[str, ...]) -> list[str]:
     need = set(hs)
-    if "ar" in need or "cr" in need or "xr" in need or "ac" in need or "ax" in need:
+    if "ar" in need or "cr" in need or "xr" in need or "ac" in need or "ax" in need or "sn" in need:
         need.add("nr")
     if "ac" in need:
         need.add("cr")
@@ -304,9 +308,13 @@ class G2:
             if op in ("*", "+", "{1,}") and nl:
                 op = "?"
             nul = nl or op in ("?", "*", "{,2}")
+            if _is_atomic_text(t) and rng.random() < 0.6:
+                return f"{t}{op}", nul
             return f"({t}){op}", nul
         if k < 0.90:
             t, _nl = self.expr(depth - 1, first)
+            if _is_atomic_text(t) and rng.random() < 0.6:
+                return f"{rng.choice('&!')}{t}", True
             return f"{rng.choice('&!')}({t})", True
         if self.stack and k < 0.95:
             t, nl = self.expr(depth - 1, first)
